@@ -20,8 +20,10 @@ IsIssue(ev) == ev.fn = "ESDTTransfer" /\ ev.caller = ESDTSC
 
 ---------------------------------------------------------------------------
 \* C01
-P01_Exact(w, ev, w2, h, r) ==
-  (Call(ev) /\ ev.fn \in TokenFns /\ IsOk(ev) /\ Pred(r)) => (r.ok /\ Bal(w2) = Bal(r.w) /\ Carried(w2) = Carried(r.w))
+\* Exactness is judged against the PERMISSIVE reference rp (flags cleared, everything payable, every role, ample gas): whether the
+\* call should have been refused for a flag, payability, a role or gas is the business of C04 / C09 / C03 / C06, not of C01.
+P01_Exact(w, ev, w2, h, r, rp) ==
+  (Call(ev) /\ ev.fn \in TokenFns /\ IsOk(ev) /\ Pred(rp)) => (rp.ok /\ Bal(w2) = Bal(rp.w) /\ Carried(w2) = Carried(rp.w))
 P01_DeliveryAccepted(w, ev, w2, h, r) ==
   (ev.a = "deliver" /\ ev.fn \in TokenFns /\ ~ev.rae /\ Pred(r) /\ r.ok) => IsOk(ev)
 \* stated without the reference operator: a delivery to a destination that carries no flag at all, is payable and holds no
@@ -40,8 +42,11 @@ P01_FailKeeps(w, ev, w2, h, r) ==
   (Call(ev) /\ ev.fn \in TokenFns /\ ~IsOk(ev)) => (Bal(w2) = Bal(w) /\ {<<x[1], x[4]>> : x \in Carried(w2)} = {<<x[1], x[4]>> : x \in Carried(w)})
 
 \* C02
-P02_Delta(w, ev, w2, h, r) ==
-  (Call(ev) /\ ev.fn \in SupplyFns /\ Pred(r)) => ((IsOk(ev) = r.ok) /\ (IsOk(ev) => Bal(w2) = Bal(r.w)))
+P02_Delta(w, ev, w2, h, r, rp) ==
+  (Call(ev) /\ ev.fn \in SupplyFns) =>
+     /\ (Pred(r) /\ r.ok) => IsOk(ev)                                   \* a nominal call has the stated effect (it is not refused)
+     /\ (IsOk(ev) /\ ev.fn # "ESDTWipe" /\ Pred(rp)) => (rp.ok /\ Bal(w2) = Bal(rp.w))   \* an accepted call changes exactly the stated amount
+     /\ (IsOk(ev) /\ ev.fn = "ESDTWipe" /\ Pred(r)) => (r.ok /\ Bal(w2) = Bal(r.w))
 P02_Others(w, ev, w2, h, r) ==
   (~Call(ev) \/ ~(ev.fn \in SupplyFns \cup TokenFns)) => Bal(w2) = Bal(w)
 P02_NoOverdraft(w, ev, w2, h, r) ==
@@ -63,9 +68,12 @@ P03_Authority(w, ev, w2, h, r) ==
 P03_Grant(w, ev, w2, h, r) ==
   (Call(ev) /\ ev.fn \in RoleGated /\ Pred(r) /\ r.ok) => IsOk(ev)
 P03_Denied(w, ev, w2, h, r) ==
-  \* an attempt the model rejects for lack of authority is rejected
-  (Call(ev) /\ ev.fn \in (RoleGated \cup AcctFns \cup FlagFns \cup {"ESDTWipe", "ESDTSetRole", "ESDTUnSetRole", "ESDTNFTCreateRoleTransfer"})
-    /\ Pred(r) /\ ~r.ok) => ~IsOk(ev)
+  \* stated without the reference operator: who is NOT entitled is refused
+  Call(ev) =>
+    /\ (ev.fn \in (FlagFns \cup {"ESDTWipe", "ESDTSetRole", "ESDTUnSetRole"}) /\ ev.caller # ESDTSC) => ~IsOk(ev)
+    /\ (ev.fn = "ESDTNFTCreateRoleTransfer" /\ ev.snd) => ~IsOk(ev)
+    /\ (ev.fn \in {"ChangeOwnerAddress", "ClaimDeveloperRewards"} /\ ev.dst /\ ev.rcpt \in Accts(w) /\ ev.caller # w.acct[ev.rcpt].owner) => ~IsOk(ev)
+    /\ (ev.fn = "SetUserName" /\ ~(Known(ev.caller) /\ cfg.addrs[ev.caller].dns)) => ~IsOk(ev)
 
 \* C04
 CoveredByPause(w, s, k, e) ==
@@ -95,8 +103,8 @@ P04_Restores(w, ev, w2, h, r) ==
 \* C05
 P05_Protected(w, ev, w2, h, r) ==
   (Call(ev) /\ ev.fn = "SaveKeyValue") => (Proto(w2) = Proto(w) /\ w2.paused = w.paused /\ w2.sysx = w.sysx /\ Fields(w2) = Fields(w))
-P05_KVExact(w, ev, w2, h, r) ==
-  /\ (Call(ev) /\ ev.fn = "SaveKeyValue" /\ IsOk(ev)) => (ev.caller = ev.rcpt /\ ~IsSC(ev.caller) /\ (Pred(r) => (r.ok /\ KVMap(w2) = KVMap(r.w))))
+P05_KVExact(w, ev, w2, h, r, rp) ==
+  /\ (Call(ev) /\ ev.fn = "SaveKeyValue" /\ IsOk(ev)) => (ev.caller = ev.rcpt /\ ~IsSC(ev.caller) /\ (Pred(rp) => (rp.ok /\ KVMap(w2) = KVMap(rp.w))))
   /\ (~Call(ev) \/ ev.fn # "SaveKeyValue") => KVMap(w2) = KVMap(w)
 Named(ev, k) == \E i \in 1..NArgs(ev) : IsPfx(Arg(ev, i).h, k)
 NamedAccts(ev) == {ev.caller, ev.rcpt} \cup {Arg(ev, i).ad : i \in 1..NArgs(ev)}
@@ -137,10 +145,10 @@ P07_ReturnedNonce(w, ev, w2, h, r) ==
      /\ CtrOf(w2.acct[ev.caller], t) = n
      /\ (t \o NBHex(n)) \in DOMAIN w2.acct[ev.caller].esdt
      /\ w2.acct[ev.caller].esdt[t \o NBHex(n)].hm /\ w2.acct[ev.caller].esdt[t \o NBHex(n)].meta.nonce = n
-     /\ n > MaxN(h, t) /\ ~(<<t, n>> \in h.made)
+     /\ (IsDupTok(t) \/ (n > MaxN(h, t) /\ ~(<<t, n>> \in h.made)))
 P07_Handover(w, ev, w2, h, r) ==
-  (Call(ev) /\ ev.fn = "ESDTNFTCreateRoleTransfer" /\ Pred(r)) =>
-     ((IsOk(ev) = r.ok) /\ (IsOk(ev) => (CtrMap(w2) = CtrMap(r.w) /\ RolesMap(w2) = RolesMap(r.w) /\ SemMsgs(w2.msgs) = SemMsgs(r.w.msgs))))
+  (Call(ev) /\ ev.fn = "ESDTNFTCreateRoleTransfer" /\ Pred(r) /\ r.ok) =>
+     (IsOk(ev) /\ CtrMap(w2) = CtrMap(r.w) /\ RolesMap(w2) = RolesMap(r.w) /\ SemMsgs(w2.msgs) = SemMsgs(r.w.msgs))
 P07_CtrOnlyByCreate(w, ev, w2, h, r) ==
   CtrMap(w2) # CtrMap(w) => (Call(ev) /\ IsOk(ev) /\ ev.fn \in {"ESDTNFTCreate", "ESDTNFTCreateRoleTransfer"})
 
